@@ -32,8 +32,17 @@ fn rt_add_probe(_rt: &mut crate::common::RoutingTable, _n: Node) -> bool {
 }
 
 fn lookup(core: &mut Core, target: Id, req: GetRequestSpecific) {
+    lookup_with(core, target, req, None)
+}
+/// the query object is completed on the stack (tracked tid, optionally an earlier recorded
+/// response) before it moves into the map: a push into a vector that already lives on the heap has
+/// a symbolic capacity for CBMC
+fn lookup_with(core: &mut Core, target: Id, req: GetRequestSpecific, earlier: Option<Response>) {
     let mut q = IterativeQuery::new(Id::from(ME), target, req);
     q.kani_track(TID);
+    if let Some(r) = earlier {
+        q.kani_push_response(r);
+    }
     core.iterative_queries.insert(target, q);
 }
 
@@ -60,7 +69,7 @@ fn envelope(tid: u32, ro: bool, rs: ResponseSpecific) -> Message {
 #[kani::unwind(26)]
 fn c02_o4a_immutable_glue() {
     clock::set(0);
-    let digests: [[u8; 20]; 3] = kani::any();
+    let digests: [[u8; 20]; 3] = kani::env();
     uf::arm(digests);
     let mut core = new_core(false, vec![]);
     let vb: u8 = kani::any();
@@ -305,8 +314,10 @@ fn put_reply_scenario(is_err: bool) {
 }
 
 //@ ob: C08.O5a
-//@ tier: thorough
-//@ cap: 2400
+//@ tier: quick
+//@ cap: 800
+//@ rss: 3.0
+//@ time: 148
 //@ mem: 24
 //@ unwindset_raw: memcmp.0:22
 //@ standins: tracing lru vcoll
@@ -329,8 +340,10 @@ fn c08_o5a_put_acks_credited_to_owner() {
 }
 
 //@ ob: C08.O5b
-//@ tier: thorough
-//@ cap: 2400
+//@ tier: quick
+//@ cap: 800
+//@ rss: 3.0
+//@ time: 132
 //@ mem: 24
 //@ unwindset_raw: memcmp.0:22
 //@ standins: tracing lru vcoll
@@ -350,4 +363,403 @@ fn c08_o5a_put_acks_credited_to_owner() {
 #[kani::unwind(4)]
 fn c08_o5b_put_errors_credited_to_owner() {
     put_reply_scenario(true);
+}
+
+
+// ------------------------------------------------------------------------------------------
+// Lookup glue with the lookup's own bookkeeping behind probes.  `IterativeQuery::{response,
+// add_candidate, add_responding_node}` grow vectors that live inside a heap-allocated query:
+// their capacities are symbolic for CBMC and the real calls cost tens of GB (C02.O4a/b, C07.O5
+// above never finished).  Here they record what they were given; what they do with it is
+// C07.O1-O3 / C11.O1-O2.  Everything else of `Core::handle_response` runs as compiled.
+// ------------------------------------------------------------------------------------------
+static mut RESP_CALLS: crate::verif_env::Ghost<usize> = crate::verif_env::ghost(88, 0);
+static mut RESP_KIND: crate::verif_env::Ghost<u8> = crate::verif_env::ghost(89, 0);
+static mut RESP_B0: crate::verif_env::Ghost<u8> = crate::verif_env::ghost(90, 0);
+static mut RESP_LEN: crate::verif_env::Ghost<usize> = crate::verif_env::ghost(91, 0);
+static mut CAND_CALLS: crate::verif_env::Ghost<usize> = crate::verif_env::ghost(92, 0);
+static mut CAND_ID0: crate::verif_env::Ghost<u8> = crate::verif_env::ghost(93, 0);
+static mut RESPONDER_CALLS: crate::verif_env::Ghost<usize> = crate::verif_env::ghost(94, 0);
+static mut RESPONDER_TOKEN: crate::verif_env::Ghost<bool> = crate::verif_env::ghost(95, false);
+
+fn describe(r: &Response) -> (u8, u8, usize) {
+    match r {
+        Response::Peers(p) => (0, 0, p.len()),
+        Response::SignedPeers(p) => (1, if p.is_empty() { 0 } else { p[0].signature()[0] }, p.len()),
+        Response::Immutable(v) => (2, if v.is_empty() { 0 } else { v[0] }, v.len()),
+        Response::Mutable(i) => (3, if i.value().is_empty() { 0 } else { i.value()[0] }, i.value().len()),
+    }
+}
+fn response_probe(_q: &mut IterativeQuery, _from: SocketAddrV4, r: Response) {
+    let (k, b, n) = describe(&r);
+    unsafe {
+        RESP_CALLS.v += 1;
+        RESP_KIND.v = k;
+        RESP_B0.v = b;
+        RESP_LEN.v = n;
+    }
+    std::mem::forget(r);
+}
+fn candidate_probe(_q: &mut IterativeQuery, n: Node) {
+    unsafe {
+        CAND_CALLS.v += 1;
+        CAND_ID0.v = n.id().as_bytes()[0];
+    }
+    std::mem::forget(n);
+}
+fn responder_probe(_q: &mut IterativeQuery, n: Node) {
+    unsafe {
+        RESPONDER_CALLS.v += 1;
+        RESPONDER_TOKEN.v = n.token().is_some();
+    }
+    std::mem::forget(n);
+}
+fn tfk_uf(k: &[u8; 32], salt: Option<&[u8]>) -> Id {
+    mh::target_uf(k, salt)
+}
+
+//@ ob: C02.O4i
+//@ tier: thorough
+//@ cap: 2400
+//@ mem: 24
+//@ unwindset_raw: memcmp.0:22
+//@ standins: tracing lru vcoll
+//@ also: C09 C18
+//@ desc: get_immutable glue: for an in-flight lookup of target t, a get_immutable response (right or wrong tid, read-only or not, value authentic or not) is surfaced AND recorded in the lookup (one IterativeQuery::response call, with that value) only if hash(v) = t, the tid belongs to the lookup and the reply is not read-only; a value whose hash differs is neither surfaced nor recorded (not even for later joiners of the same lookup); a read-only or foreign reply changes nothing and teaches the routing table nothing; an accepted reply's token makes the responder a storage candidate
+//@ bounds: one lookup with one tracked tid, one response; v 1 symbolic byte; target = H(v) or another id (H uninterpreted, bound to SHA-1 by C02.O3); symbolic tid match and read_only bits; no closer nodes in the reply; unwind 5, memcmp 22
+//@ stubs: hash_immutable -> H; IterativeQuery::{response, add_candidate, add_responding_node} -> recording probes (their own behaviour: C07.O1-O3, C11); from_dht_message / from_dht_response -> flagged cuts (other kinds); RoutingTable::add -> probe counting calls; Instant::now; getrandom::fill
+//@ functions: Core::handle_response (guards, GetImmutable arm, routing-table offer), validate_immutable, IterativeQuery::inflight
+#[kani::proof]
+#[kani::stub(crate::common::immutable::hash_immutable, uf::h)]
+#[kani::stub(crate::common::mutable::MutableItem::from_dht_message, mh::from_dht_message_cut)]
+#[kani::stub(crate::common::signed_announce::SignedAnnounce::from_dht_response, sh::from_dht_cut)]
+#[kani::stub(crate::common::routing_table::RoutingTable::add, rt_add_probe)]
+#[kani::stub(crate::core::iterative_query::IterativeQuery::response, response_probe)]
+#[kani::stub(crate::core::iterative_query::IterativeQuery::add_candidate, candidate_probe)]
+#[kani::stub(crate::core::iterative_query::IterativeQuery::add_responding_node, responder_probe)]
+#[kani::stub(std::time::Instant::now, clock::now)]
+#[kani::stub(getrandom::fill, rnd::fill)]
+#[kani::unwind(5)]
+fn c02_o4i_immutable_glue_probed() {
+    clock::set(0);
+    let digests: [[u8; 20]; 3] = kani::env();
+    uf::arm(digests);
+    let mut core = new_core(false, Vec::with_capacity(1));
+    let vb: u8 = kani::any();
+    let honest: bool = kani::any();
+    let other: [u8; 20] = kani::any();
+    let target: Id = if honest { uf::h(&[vb]).into() } else { Id::from(other) };
+    let authentic = uf::h(&[vb]) == *target.as_bytes();
+    lookup(&mut core, target, GetRequestSpecific::GetValue(GetValueRequestArguments { target, seq: None, salt: None }));
+    let tid_ok: bool = kani::any();
+    let ro: bool = kani::any();
+    let from = SocketAddrV4::new([10, 0, 0, 9].into(), 6881);
+    let msg = envelope(if tid_ok { TID } else { TID + 1 }, ro, ResponseSpecific::GetImmutable(GetImmutableResponseArguments {
+        responder_id: Id::from([9u8; 20]),
+        token: Box::new([1, 2, 3, 4]),
+        nodes: None,
+        v: Box::new([vb]),
+    }));
+    let out = core.handle_response(from, msg);
+    let accept = authentic && tid_ok && !ro;
+    match &out {
+        Some((t, Response::Immutable(v))) => {
+            assert!(accept, "C02.O4 only an authentic immutable value surfaces");
+            assert!(*t == target && v.len() == 1 && v[0] == vb, "C02.O4 surfaced value is the response's value for the lookup's target");
+        }
+        Some(_) => assert!(false, "C02.O4 a get_immutable response yields an immutable value"),
+        None => assert!(!accept, "C02.O4 an authentic value for an in-flight lookup is delivered"),
+    }
+    let (calls, kind, b0, n) = unsafe { (RESP_CALLS.v, RESP_KIND.v, RESP_B0.v, RESP_LEN.v) };
+    assert!(calls == accept as usize, "C02.O4 only authentic values are recorded in the lookup");
+    if accept {
+        assert!(kind == 2 && b0 == vb && n == 1, "C02.O4 the recorded response is the authentic value");
+    }
+    let learned = unsafe { RT_ADDS.v };
+    let (cands, responders) = unsafe { (CAND_CALLS.v, RESPONDER_CALLS.v) };
+    if ro || !tid_ok {
+        assert!(learned == 0 && cands == 0 && responders == 0, "C09/C18.O4 replies that are read-only or do not match an in-flight request teach nothing");
+    } else {
+        assert!(responders == 1 && unsafe { RESPONDER_TOKEN.v }, "C08.O3 a responder that sent a token becomes a storage candidate");
+    }
+    assert!(!cut_reached(), "CUT: another kind's validator reached");
+    kani::cover!(accept);
+    kani::cover!(!authentic && tid_ok && !ro);
+    kani::cover!(authentic && !tid_ok);
+    kani::cover!(authentic && ro);
+    std::mem::forget(out);
+    std::mem::forget(core);
+}
+
+fn mutable_glue(with_salt: bool) {
+    clock::set(0);
+    uf::arm(kani::env());
+    let mut core = new_core(false, Vec::with_capacity(1));
+    let target = Id::from([5u8; 20]);
+    let sb: u8 = kani::any();
+    let salt: Option<Box<[u8]>> = if with_salt { Some(Box::new([sb])) } else { None };
+    let from = SocketAddrV4::new([10, 0, 0, 9].into(), 6881);
+    let seq0: i64 = kani::any();
+    let val0: u8 = kani::any();
+    let first = MutableItem::kani_build(target, [1; 32], [2; 64], Box::new([val0]), seq0, None);
+    lookup_with(&mut core, target, GetRequestSpecific::GetValue(GetValueRequestArguments { target, seq: None, salt }), Some(Response::Mutable(first)));
+    // the later response
+    let same_k: bool = kani::any();
+    let same_sig: bool = kani::any();
+    let same_seq: bool = kani::any();
+    let other_seq: i64 = kani::any();
+    let val: u8 = kani::any();
+    let kb: u8 = if same_k { 1 } else { 7 };
+    let sgb: u8 = if same_sig { 2 } else { 8 };
+    let seq = if same_seq { seq0 } else { other_seq };
+    let sig_valid: bool = kani::any();
+    let target_ok: bool = kani::any();
+    unsafe {
+        mh::CONTRACT_SIG_VALID.v = sig_valid;
+        mh::CONTRACT_TARGET_OK.v = target_ok;
+    }
+    let msg = envelope(TID, false, ResponseSpecific::GetMutable(crate::common::GetMutableResponseArguments {
+        responder_id: Id::from([9u8; 20]),
+        token: Box::new([1, 2, 3, 4]),
+        nodes: None,
+        v: Box::new([val]),
+        k: [kb; 32],
+        seq,
+        sig: [sgb; 64],
+    }));
+    let out = core.handle_response(from, msg);
+    let calls = unsafe { mh::CONTRACT_CALLS.v };
+    let accept = sig_valid && target_ok;
+    match &out {
+        Some((t, Response::Mutable(item))) => {
+            assert!(calls == 1 && accept, "C02.O4 a mutable item surfaces only after from_dht_message verified this very response");
+            assert!(*t == target && item.seq() == seq && item.value() == &[val], "C02.O4 surfaced item is the response's item for the lookup's target");
+            assert!(item.key()[0] == kb && item.key()[31] == kb && item.signature()[0] == sgb && item.signature()[63] == sgb, "C02.O4 surfaced item is the response's item for the lookup's target");
+        }
+        Some(_) => assert!(false, "C02.O4 a get_mutable response yields a mutable item"),
+        None => assert!(!accept, "C02.O4 an authentic item for an in-flight lookup is delivered"),
+    }
+    if calls >= 1 {
+        let (t0, k0, v0, s, g0, (has, sl, s0)) = unsafe { (REC_TARGET0.v, REC_K0.v, REC_V0.v, REC_SEQ.v, REC_SIG0.v, REC_SALT.v) };
+        assert!(calls == 1 && t0 == 5 && k0 == kb && v0 == val && s == seq && g0 == sgb, "C02.O4 from_dht_message is asked about the lookup's target and the response's own k, v, seq, sig");
+        assert!(has == with_salt && (!with_salt || (sl == 1 && s0 == sb)), "C02.O4 from_dht_message is asked about the lookup's (requested) salt");
+    }
+    let (rc, kind, b0) = unsafe { (RESP_CALLS.v, RESP_KIND.v, RESP_B0.v) };
+    assert!(rc == accept as usize, "C02.O4 only verified items are recorded in the lookup");
+    if accept {
+        assert!(kind == 3 && b0 == val, "C02.O4 the recorded response is the verified item");
+    }
+    assert!(!cut_reached(), "CUT: another kind's validator reached");
+    kani::cover!(accept && same_k && same_sig && same_seq && val != val0);
+    kani::cover!(!accept && same_k && same_sig && same_seq && val != val0);
+    kani::cover!(accept && !same_k);
+    std::mem::forget(out);
+    std::mem::forget(core);
+}
+
+
+//@ ob: C02.O4m
+//@ tier: thorough
+//@ cap: 2400
+//@ mem: 24
+//@ unwindset_raw: memcmp.0:66
+//@ standins: tracing lru vcoll
+//@ desc: get_mutable glue with an earlier authentic item already recorded in the lookup: a later get_mutable response -- whose key, seq and signature bytes symbolically repeat the recorded item's or differ, around any value -- is surfaced and recorded only if MutableItem::from_dht_message was asked about exactly this response (the lookup's target, the response's k, v, seq, sig, the lookup's salt) and accepted it; otherwise nothing surfaces and nothing is recorded; nothing is yielded without verification (a replayed signature around another value included)
+//@ bounds: one lookup (GetValue, no salt) with one recorded item (k = [1;32], sig = [2;64], seq0 symbolic, 1-byte value); one response with symbolic replay bits for key / signature / seq, symbolic 1-byte value, symbolic contract verdicts; tid matches; not read-only; unwind 5, memcmp 66
+//@ stubs: MutableItem::from_dht_message -> contract (leaf C02.O1u/O1s/O1t) with call counter and argument record; MutableItem::target_from_key -> uninterpreted (reached only if the glue builds items itself); IterativeQuery::{response, add_candidate, add_responding_node} -> recording probes; validate_immutable, SignedAnnounce::from_dht_response -> flagged cuts; RoutingTable::add -> probe; Instant::now; getrandom::fill
+//@ functions: Core::handle_response (GetMutable arm), IterativeQuery::{inflight,responses}
+#[kani::proof]
+#[kani::stub(crate::common::immutable::validate_immutable, vi_cut)]
+#[kani::stub(crate::common::mutable::MutableItem::from_dht_message, from_dht_message_contract_rec)]
+#[kani::stub(crate::common::mutable::MutableItem::target_from_key, tfk_uf)]
+#[kani::stub(crate::common::signed_announce::SignedAnnounce::from_dht_response, sh::from_dht_cut)]
+#[kani::stub(crate::common::routing_table::RoutingTable::add, rt_add_probe)]
+#[kani::stub(crate::core::iterative_query::IterativeQuery::response, response_probe)]
+#[kani::stub(crate::core::iterative_query::IterativeQuery::add_candidate, candidate_probe)]
+#[kani::stub(crate::core::iterative_query::IterativeQuery::add_responding_node, responder_probe)]
+#[kani::stub(std::time::Instant::now, clock::now)]
+#[kani::stub(getrandom::fill, rnd::fill)]
+#[kani::unwind(5)]
+fn c02_o4m_mutable_glue_probed() {
+    mutable_glue(false);
+}
+
+//@ ob: C02.O4n
+//@ tier: thorough
+//@ cap: 2400
+//@ mem: 24
+//@ unwindset_raw: memcmp.0:66
+//@ standins: tracing lru vcoll
+//@ desc: get_mutable glue with an earlier authentic item already recorded in the lookup: a later get_mutable response -- whose key, seq and signature bytes symbolically repeat the recorded item's or differ, around any value -- is surfaced and recorded only if MutableItem::from_dht_message was asked about exactly this response (the lookup's target, the response's k, v, seq, sig, the lookup's salt) and accepted it; otherwise nothing surfaces and nothing is recorded; nothing is yielded without verification (a replayed signature around another value included)
+//@ bounds: one lookup (GetValue with a one-byte symbolic salt: the salt handed to from_dht_message must be the requested one) with one recorded item (k = [1;32], sig = [2;64], seq0 symbolic, 1-byte value); one response with symbolic replay bits for key / signature / seq, symbolic 1-byte value, symbolic contract verdicts; tid matches; not read-only; unwind 5, memcmp 66
+//@ stubs: MutableItem::from_dht_message -> contract (leaf C02.O1u/O1s/O1t) with call counter and argument record; MutableItem::target_from_key -> uninterpreted (reached only if the glue builds items itself); IterativeQuery::{response, add_candidate, add_responding_node} -> recording probes; validate_immutable, SignedAnnounce::from_dht_response -> flagged cuts; RoutingTable::add -> probe; Instant::now; getrandom::fill
+//@ functions: Core::handle_response (GetMutable arm), IterativeQuery::{inflight,responses}
+#[kani::proof]
+#[kani::stub(crate::common::immutable::validate_immutable, vi_cut)]
+#[kani::stub(crate::common::mutable::MutableItem::from_dht_message, from_dht_message_contract_rec)]
+#[kani::stub(crate::common::mutable::MutableItem::target_from_key, tfk_uf)]
+#[kani::stub(crate::common::signed_announce::SignedAnnounce::from_dht_response, sh::from_dht_cut)]
+#[kani::stub(crate::common::routing_table::RoutingTable::add, rt_add_probe)]
+#[kani::stub(crate::core::iterative_query::IterativeQuery::response, response_probe)]
+#[kani::stub(crate::core::iterative_query::IterativeQuery::add_candidate, candidate_probe)]
+#[kani::stub(crate::core::iterative_query::IterativeQuery::add_responding_node, responder_probe)]
+#[kani::stub(std::time::Instant::now, clock::now)]
+#[kani::stub(getrandom::fill, rnd::fill)]
+#[kani::unwind(5)]
+fn c02_o4n_mutable_glue_salted() {
+    mutable_glue(true);
+}
+
+static mut REC_TARGET0: crate::verif_env::Ghost<u8> = crate::verif_env::ghost(96, 0);
+static mut REC_K0: crate::verif_env::Ghost<u8> = crate::verif_env::ghost(97, 0);
+static mut REC_V0: crate::verif_env::Ghost<u8> = crate::verif_env::ghost(98, 0);
+static mut REC_SEQ: crate::verif_env::Ghost<i64> = crate::verif_env::ghost(99, 0);
+static mut REC_SIG0: crate::verif_env::Ghost<u8> = crate::verif_env::ghost(100, 0);
+static mut REC_SALT: crate::verif_env::Ghost<(bool, usize, u8)> = crate::verif_env::ghost(101, (false, 0, 0));
+/// contract of from_dht_message that also records what it was asked about
+fn from_dht_message_contract_rec(target: Id, key: &[u8], v: Box<[u8]>, seq: i64, signature: &[u8], salt: Option<Box<[u8]>>) -> Result<MutableItem, crate::common::MutableError> {
+    unsafe {
+        REC_TARGET0.v = target.as_bytes()[0];
+        REC_K0.v = if key.is_empty() { 0 } else { key[0] };
+        REC_V0.v = if v.is_empty() { 0 } else { v[0] };
+        REC_SEQ.v = seq;
+        REC_SIG0.v = if signature.is_empty() { 0 } else { signature[0] };
+        REC_SALT.v = match &salt {
+            Some(s) => (true, s.len(), if s.is_empty() { 0 } else { s[0] }),
+            None => (false, 0, 0),
+        };
+    }
+    mh::from_dht_message_contract(target, key, v, seq, signature, salt)
+}
+
+//@ ob: C02.O4s
+//@ tier: thorough
+//@ cap: 2400
+//@ mem: 24
+//@ unwindset_raw: memcmp.0:66
+//@ standins: tracing lru vcoll
+//@ desc: get_signed_peers glue: a response carrying two signed announcements is surfaced and recorded only if SignedAnnounce::from_dht_response accepted every one of them for the lookup's info-hash (each asked with the entry's own k, t, sig); one invalid entry => nothing surfaces, nothing is recorded and the responder is not offered to the routing table; the surfaced list carries exactly the verified entries (key, timestamp, signature as verified) in order
+//@ bounds: one GetSignedPeers lookup, one response with 2 entries (keys [3;32]/[4;32], symbolic u64 timestamps, signatures [5;64]/[6;64]), symbolic per-entry verdicts; tid matches; not read-only; unwind 4, memcmp 66
+//@ stubs: SignedAnnounce::from_dht_response -> contract (leaf C02.O2) with per-call verdicts; IterativeQuery::{response, add_candidate, add_responding_node} -> recording probes; other validators -> flagged cuts; RoutingTable::add -> probe; Instant::now; getrandom::fill
+//@ functions: Core::handle_response (GetSignedPeers arm)
+#[kani::proof]
+#[kani::stub(crate::common::immutable::validate_immutable, vi_cut)]
+#[kani::stub(crate::common::mutable::MutableItem::from_dht_message, mh::from_dht_message_cut)]
+#[kani::stub(crate::common::signed_announce::SignedAnnounce::from_dht_response, sh::from_dht_contract)]
+#[kani::stub(crate::common::routing_table::RoutingTable::add, rt_add_probe)]
+#[kani::stub(crate::core::iterative_query::IterativeQuery::response, response_probe)]
+#[kani::stub(crate::core::iterative_query::IterativeQuery::add_candidate, candidate_probe)]
+#[kani::stub(crate::core::iterative_query::IterativeQuery::add_responding_node, responder_probe)]
+#[kani::stub(std::time::Instant::now, clock::now)]
+#[kani::stub(getrandom::fill, rnd::fill)]
+#[kani::unwind(4)]
+fn c02_o4s_signed_peers_glue_probed() {
+    clock::set(0);
+    let mut core = new_core(false, Vec::with_capacity(1));
+    let target = Id::from([5u8; 20]);
+    lookup(&mut core, target, GetRequestSpecific::GetSignedPeers(GetPeersRequestArguments { info_hash: target }));
+    let from = SocketAddrV4::new([10, 0, 0, 9].into(), 6881);
+    let ok0: bool = kani::any();
+    let ok1: bool = kani::any();
+    unsafe { sh::CONTRACT_OK.v = [ok0, ok1, false] };
+    let t0: u64 = kani::any();
+    let t1: u64 = kani::any();
+    let msg = envelope(TID, false, ResponseSpecific::GetSignedPeers(crate::common::GetSignedPeersResponseArguments {
+        responder_id: Id::from([9u8; 20]),
+        token: Box::new([1, 2, 3, 4]),
+        nodes: None,
+        peers: vec![([3u8; 32], t0, [5u8; 64]), ([4u8; 32], t1, [6u8; 64])],
+    }));
+    let out = core.handle_response(from, msg);
+    let calls = unsafe { sh::CONTRACT_CALLS.v };
+    let accept = ok0 && ok1;
+    match &out {
+        Some((t, Response::SignedPeers(l))) => {
+            assert!(accept && calls == 2, "C02.O4 signed peers surface only if every entry was verified");
+            assert!(*t == target && l.len() == 2, "C02.O4 the surfaced list is the verified list");
+            assert!(l[0].key()[0] == 3 && l[0].timestamp() == t0 && l[0].signature()[0] == 5 && l[1].key()[0] == 4 && l[1].timestamp() == t1 && l[1].signature()[63] == 6, "C02.O4 surfaced announcements are exactly what was verified (key, timestamp, signature)");
+        }
+        Some(_) => assert!(false, "C02.O4 a get_signed_peers response yields signed peers"),
+        None => assert!(!accept, "C02.O4 verified signed peers for an in-flight lookup are delivered"),
+    }
+    let (rc, kind, n) = unsafe { (RESP_CALLS.v, RESP_KIND.v, RESP_LEN.v) };
+    assert!(rc == accept as usize, "C02.O4 only fully verified lists are recorded in the lookup");
+    if accept {
+        assert!(kind == 1 && n == 2, "C02.O4 the recorded response is the verified list");
+    } else {
+        assert!(unsafe { RT_ADDS.v } == 0, "C02.O4 a responder that sent an invalid record is not added to the routing table");
+    }
+    assert!(!cut_reached(), "CUT: another kind's validator reached");
+    kani::cover!(accept);
+    kani::cover!(ok0 && !ok1);
+    kani::cover!(!ok0);
+    std::mem::forget(out);
+    std::mem::forget(core);
+}
+
+//@ ob: C07.O5p
+//@ tier: thorough
+//@ cap: 2400
+//@ mem: 24
+//@ unwindset_raw: memcmp.0:22
+//@ standins: tracing lru vcoll
+//@ also: C08 C09
+//@ desc: every expected reply's referral is offered to the lookup: for a reply matching an in-flight request of a get_peers lookup -- a get_peers reply with values, a no-values reply or a find_node reply, each carrying one closer node -- IterativeQuery::add_candidate is called once with that node (also when the reply carried values and was surfaced), and a reply with a token makes the responder a storage candidate carrying a token; a reply whose tid belongs to no lookup, or a read-only reply, offers nothing
+//@ bounds: one lookup with one tracked tid; reply kind fixed per call (three kinds in one harness, symbolic choice); one referral node (concrete id 0x44.., private IP); tid matching or not, read-only or not (symbolic); unwind 4, memcmp 22
+//@ stubs: IterativeQuery::{response, add_candidate, add_responding_node} -> recording probes (what the lookup does with candidates: C07.O1-O3, C11.O1-O2); RoutingTable::add -> probe; other kinds' validators -> flagged cuts; Instant::now; getrandom::fill
+//@ functions: Core::handle_response (bookkeeping before the payload match), Message::{get_closer_nodes,get_token}
+#[kani::proof]
+#[kani::stub(crate::common::immutable::validate_immutable, vi_cut)]
+#[kani::stub(crate::common::mutable::MutableItem::from_dht_message, mh::from_dht_message_cut)]
+#[kani::stub(crate::common::signed_announce::SignedAnnounce::from_dht_response, sh::from_dht_cut)]
+#[kani::stub(crate::common::routing_table::RoutingTable::add, rt_add_probe)]
+#[kani::stub(crate::core::iterative_query::IterativeQuery::response, response_probe)]
+#[kani::stub(crate::core::iterative_query::IterativeQuery::add_candidate, candidate_probe)]
+#[kani::stub(crate::core::iterative_query::IterativeQuery::add_responding_node, responder_probe)]
+#[kani::stub(std::time::Instant::now, clock::now)]
+#[kani::stub(getrandom::fill, rnd::fill)]
+#[kani::unwind(4)]
+fn c07_o5p_referrals_offered() {
+    clock::set(0);
+    let mut core = new_core(false, Vec::with_capacity(1));
+    let target = Id::from([5u8; 20]);
+    lookup(&mut core, target, GetRequestSpecific::GetPeers(GetPeersRequestArguments { info_hash: target }));
+    let from = SocketAddrV4::new([10, 0, 0, 9].into(), 6881);
+    let mut rid = [0u8; 20];
+    rid[0] = 0x44;
+    let referral = Node::new(Id::from(rid), SocketAddrV4::new([10, 0, 0, 77].into(), 7777));
+    let kind: u8 = kani::any();
+    kani::assume(kind < 3);
+    let tid_ok: bool = kani::any();
+    let ro: bool = kani::any();
+    let nodes: Box<[Node]> = Box::new([referral.clone()]);
+    let responder_id = Id::from([9u8; 20]);
+    let rs = if kind == 0 {
+        ResponseSpecific::GetPeers(crate::common::GetPeersResponseArguments { responder_id, token: Box::new([1, 2, 3, 4]), nodes: Some(nodes), values: vec![SocketAddrV4::new([10, 0, 0, 50].into(), 5000)] })
+    } else if kind == 1 {
+        ResponseSpecific::NoValues(crate::common::NoValuesResponseArguments { responder_id, token: Box::new([1, 2, 3, 4]), nodes: Some(nodes) })
+    } else {
+        ResponseSpecific::FindNode(crate::common::FindNodeResponseArguments { responder_id, nodes })
+    };
+    let out = core.handle_response(from, envelope(if tid_ok { TID } else { TID + 1 }, ro, rs));
+    let (cands, id0, responders, has_token) = unsafe { (CAND_CALLS.v, CAND_ID0.v, RESPONDER_CALLS.v, RESPONDER_TOKEN.v) };
+    let (rc, rk, rn) = unsafe { (RESP_CALLS.v, RESP_KIND.v, RESP_LEN.v) };
+    if tid_ok && !ro {
+        assert!(cands == 1 && id0 == 0x44, "C07.O5 the closer nodes of every expected reply are merged into the lookup's candidates");
+        assert!(responders == (kind < 2) as usize && (kind >= 2 || has_token), "C08.O3 a responder that sent a token becomes a storage candidate");
+        assert!(out.is_some() == (kind == 0) && rc == (kind == 0) as usize, "C02.O4 only a reply with values surfaces (and records) a response");
+        if kind == 0 {
+            assert!(rk == 0 && rn == 1, "C02.O4 the recorded response is the reply's peer list");
+        }
+    } else {
+        assert!(cands == 0 && responders == 0 && rc == 0 && out.is_none(), "C09/C18.O4 a reply that matches no in-flight request, or is read-only, has no effect on the lookup");
+        assert!(unsafe { RT_ADDS.v } == 0, "C09/C18.O4 replies that are read-only or do not match an in-flight request teach nothing");
+    }
+    assert!(!cut_reached(), "CUT: another kind's validator reached");
+    kani::cover!(tid_ok && !ro && kind == 0);
+    kani::cover!(tid_ok && !ro && kind == 2);
+    kani::cover!(!tid_ok);
+    kani::cover!(ro && tid_ok);
+    std::mem::forget(out);
+    std::mem::forget(core);
 }
